@@ -10,7 +10,7 @@ import sys
 from vf import common, findings
 from vf.props import deductive
 
-KEYS = ["doctrans.parser_utils:ir_merge", "vf.contracts.laws:function_signature_roundtrip", "doctrans.parse:function", "doctrans.parse:class_", "doctrans.parser_utils:_interpolate_return", "doctrans.parser_utils:_join_non_none", "doctrans.ast_utils:get_function_type"]
+KEYS = ["doctrans.parser_utils:ir_merge", "doctrans.parse:_merge_inner_function", "vf.contracts.laws:function_signature_roundtrip", "doctrans.parse:function", "doctrans.parse:class_", "doctrans.parser_utils:_interpolate_return", "doctrans.parser_utils:_join_non_none", "doctrans.ast_utils:get_function_type"]
 NAMES = ("a", "b", "c", "d")
 
 
@@ -58,6 +58,9 @@ def docstrings(names, kwargs, style_i):
         docs["some"] = rest(names[1:2])
         docs["reversed"] = rest(list(reversed(names)))
         docs["last"] = rest(names[-1:])
+    if kwargs and names:
+        # **kwargs documented while later parameters are not: the documented prefix keeps source order and **kwargs must still come last
+        docs["first+kwargs"] = rest(list(names[:1]) + ["kwargs"])
     return docs
 
 
